@@ -218,6 +218,39 @@ func moreScenarios() []scenario {
 			{"String", func() []byte { return []byte(pri.String()) }},
 		}
 	}})
+	// share lists handed to the recovery functions by several goroutines (unsorted, complete)
+	out = append(out, scenario{name: "share lists (ed25519)", pairsOf: allPairs, build: func() []method {
+		g := groups.ByName("ed25519")
+		var cs []kyber.Scalar
+		for i := 0; i < 3; i++ {
+			cs = append(cs, sc(g, fmt.Sprint("sl", i)))
+		}
+		pri := share.CoefficientsToPriPoly(g.Group, cs)
+		pub := pri.Commit(nil)
+		ps, qs := pri.Shares(5), pub.Shares(5)
+		ps[0], ps[3], ps[1], ps[4] = ps[3], ps[0], ps[4], ps[1]
+		qs[0], qs[3], qs[1], qs[4] = qs[3], qs[0], qs[4], qs[1]
+		enc := func(s kyber.Scalar) []byte { b, _ := s.MarshalBinary(); return b }
+		return []method{
+			{"RecoverSecret", func() []byte { v, err := share.RecoverSecret(g.Group, ps, 3, 5); return append(enc(v), b2(err == nil)...) }},
+			{"RecoverPriPoly", func() []byte {
+				pp, err := share.RecoverPriPoly(g.Group, ps, 3, 5)
+				if err != nil {
+					return []byte("error")
+				}
+				return enc(pp.Secret())
+			}},
+			{"RecoverCommit", func() []byte { v, err := share.RecoverCommit(g.Group, qs, 3, 5); return append(fmod.Enc(v), b2(err == nil)...) }},
+			{"RecoverPubPoly", func() []byte {
+				pp, err := share.RecoverPubPoly(g.Group, qs, 3, 5)
+				if err != nil {
+					return []byte("error")
+				}
+				return fmod.Enc(pp.Commit())
+			}},
+			{"read first index", func() []byte { return []byte{byte(ps[0].I), byte(qs[0].I)} }},
+		}
+	}})
 	// ECIES with a shared public / private key
 	for _, gn := range []string{"ed25519", "p256", "ed25519vartime"} {
 		gn := gn
